@@ -253,6 +253,12 @@ def build_overlay():
     if _overlay is not None:
         return _overlay
     ov = scratch_dir("zi-ov-")
+    if os.environ.get("VERIF_COVERAGE"):
+        # one shared, instrumented overlay for all the runs of a coverage report (tools/coverage_report.py)
+        ov = os.path.join(os.environ["VERIF_COVERAGE"], "ov")
+        if os.path.exists(os.path.join(ov, "built")):
+            _overlay = dict(path=ov, c_ok=True, c_err="")
+            return _overlay
     src = os.path.join(REPO, "src", "zope", "interface")
     dst = os.path.join(ov, "zope", "interface")
     shutil.copytree(src, dst, ignore=shutil.ignore_patterns("*.so", "__pycache__", "*.pyc"))
@@ -262,10 +268,18 @@ def build_overlay():
         raise Infra("cannot query python: " + inc.stderr)
     incdir, suffix = [l for l in inc.stdout.splitlines() if l and not l.startswith("WARNING")][-2:]
     so = os.path.join(dst, "_zope_interface_coptimizations" + suffix)
-    cc = subprocess.run(["gcc", "-shared", "-fPIC", "-O2", "-I" + incdir, "-w",
+    flags = ["-O2"]
+    if os.environ.get("VERIF_COVERAGE"):
+        # tools/coverage_report.py: line coverage of the C twin as well (gcov data collected under VERIF_COVERAGE/gcov)
+        gdir = os.path.join(os.environ["VERIF_COVERAGE"], "gcov")
+        os.makedirs(gdir, exist_ok=True)
+        flags = ["-O0", "--coverage", "-fprofile-update=atomic"]
+    cc = subprocess.run(["gcc", "-shared", "-fPIC"] + flags + ["-I" + incdir, "-w",
                          os.path.join(dst, "_zope_interface_coptimizations.c"), "-o", so],
-                        capture_output=True, text=True)
+                        capture_output=True, text=True, cwd=dst)
     _overlay = dict(path=ov, c_ok=cc.returncode == 0, c_err=cc.stderr[-3000:])
+    if os.environ.get("VERIF_COVERAGE"):
+        open(os.path.join(ov, "built"), "w").write("1")
     return _overlay
 
 
